@@ -514,6 +514,18 @@ def check_whole(case):
             gotc[c] += 1
     if set(gotc) != win(ea) - win(eb) or (gotc and max(gotc.values()) > 1):
         fails.append(('sub|whole|cells', '%s - %s -> %s' % (name(a), name(b), area_names(D))))
+    # every area of an intersection is a rectangle that holds a cell and reads back from its own name (the leftover strips
+    # of a difference with a whole row/column carry half-open names on HEAD; only their cells are asserted, above);
+    # a reference intersected with itself is that reference
+    res = ra & rb
+    bad = [a_ for a_ in areas(res) if a_[1] > a_[3] or a_[2] > a_[4]]
+    if bad or malformed(res):
+        fails.append(('and|whole|malformed-area', '%s and %s -> %s (%s)' % (name(a), name(b), area_names(res), bad or malformed(res))))
+    for x_ in (a, b):
+        r_ = mk_noval(x_)
+        raw = lambda g: [(int(q['n1']), int(q['r1']), int(q['n2']), int(q['r2'])) for q in g.ranges]
+        if raw(r_ & mk_noval(x_)) != raw(r_):
+            fails.append(('and|whole|self-intersection', '%s & %s -> %s' % (name(x_), name(x_), area_names(r_ & mk_noval(x_)))))
     # simplification of the union: the same cells, each once
     has_row = a[0] is None or b[0] is None
     try:
